@@ -91,6 +91,20 @@ class NocaseDict(HashableMixin, KeyableByMixin('name'), _NocaseDict):
         self._check_unnamed_key(key)
         return super().__contains__(key)
 
+    def copy(self):
+        """
+        Return a copy of the dictionary, as an object of this class (the
+        inherited method returns an object of the base class, which is not
+        hashable and has no 'allow_unnamed_keys' attribute).
+
+        This is a middle-deep copy: the values are shared with the original.
+        """
+        result = NocaseDict()
+        # pylint: disable=protected-access
+        result._data = self._data.copy()
+        result.allow_unnamed_keys = self.allow_unnamed_keys
+        return result
+
     def pop(self, key, default=_OMITTED):
         self._check_unnamed_key(key)
         return super().pop(key, default)
